@@ -42,7 +42,7 @@ def run(ctx):
     if ctx.quick:
         known_cells = [(f["key"].split(":")[1], f["key"].split(":", 2)[2]) for f in ctx.known if f["key"].count(":") >= 2
                        and f["key"].split(":")[1].isupper() and len(f["key"].split(":")[1]) == 3]
-        pick = ctx.rng.sample(cells, 40)
+        pick = ctx.rng.sample(cells, 150)
         # a couple of recorded failing cells run first (they must still be recognised), plus one world preset
         extra = [c for c in cells if (c["iso3"], c["preset"]) in known_cells][:2]
         cells = extra + pick + [ctx.rng.choice(wcells)]
